@@ -28,6 +28,7 @@ type Profile struct {
 	MaxOpen      int            `json:"maxOpen"`
 	Twin         string         `json:"twin"`         // "" | "reset" | "load"
 	WeightsB     map[string]int `json:"weightsAfter"` // weights once a "load" twin exists
+	Generic      bool           `json:"generic"`      // drive the generic API (static component types at ids 0..12)
 	RandListener bool           `json:"randListener"` // random subscription masks / component restrictions
 	DispatchPct  int            `json:"dispatchPct"`  // share of worlds with a listener.Dispatch
 }
@@ -789,6 +790,308 @@ func (g *generator) next() Op {
 			return Op{Op: "Unregister", Reg: g.pick(live)}
 		case "reset":
 			return Op{Op: "Reset"}
+		case "gcreate":
+			if len(alive) >= g.p.MaxEnts && !g.pct(10) {
+				continue
+			}
+			ar := 1 + g.rng.Intn(12)
+			if g.pct(60) {
+				ar = 1 + g.rng.Intn(4)
+			}
+			op := Op{Op: "BuilderNew", Api: "generic.Map.New", Ar: ar, Tgt: -1}
+			hasRelComp := ar >= 3
+			if g.pct(35) {
+				op.Api = "generic.Map.NewWith"
+				op.WithV = true
+				op.Vals = g.vals(seqIDs(ar))
+			}
+			if g.pct(25) {
+				// Exchange.NewEntity with arbitrary components
+				ids := g.compSet()
+				op = Op{Op: "BuilderNew", Api: "generic.Exchange.NewEntity", Ids: ids, Tgt: -1}
+				if r := g.relOf(ids); r >= 0 && g.pct(80) {
+					op.HasRel, op.Rel, op.HasTgt = true, r, true
+					op.Tgt = g.target(faulty)
+				} else if faulty {
+					op.HasTgt = true
+				}
+				return op
+			}
+			if g.pct(20) {
+				op.Op, op.Api, op.N = "NewBatch", "generic.Map.NewBatch", 1+g.rng.Intn(g.p.MaxBatch)
+				op.Vals, op.WithV = nil, false
+				if g.pct(50) {
+					op.Q, op.Api, op.Walk = true, "generic.Map.NewBatchQ", g.walk()
+					if g.pct(g.p.HoldPct) {
+						op.Hold = true
+					}
+				}
+			}
+			if hasRelComp && g.pct(70) {
+				op.HasRel, op.Rel = true, 2
+				if g.pct(85) {
+					op.HasTgt = true
+					op.Tgt = g.target(faulty && g.pct(50))
+				}
+			} else if faulty {
+				op.HasTgt = true // target without relation
+				op.Tgt = g.target(false)
+			}
+			return op
+		case "gexchange":
+			if len(alive) == 0 {
+				continue
+			}
+			ref := g.pick(alive)
+			mask := g.maskOf(ref)
+			lead := 0 // number of leading ids (0,1,2,...) all absent / all present
+			for lead < 12 && !contains(mask, lead) {
+				lead++
+			}
+			run := 0
+			for run < 12 && contains(mask, run) {
+				run++
+			}
+			hasRel := g.relOf(mask) >= 0
+			switch {
+			case lead >= 1 && g.pct(40):
+				ar := 1 + g.rng.Intn(lead)
+				if ar >= 3 && hasRel && !faulty {
+					ar = 2
+				}
+				op := Op{Op: "Exchange", Api: "generic.Map.Add", E: ref, Ar: ar, Tgt: -1}
+				if ar >= 3 && g.pct(70) {
+					op.HasRel, op.Rel, op.HasTgt = true, 2, true
+					op.Tgt = g.target(faulty)
+				}
+				if g.pct(30) {
+					op.Op, op.Api, op.Vals = "Assign", "generic.Map.Assign", g.vals(seqIDs(ar))
+					op.HasRel, op.HasTgt = false, false
+				}
+				return op
+			case run >= 1 && g.pct(50):
+				ar := 1 + g.rng.Intn(run)
+				op := Op{Op: "Exchange", Api: "generic.Map.Remove", E: ref, Ar: ar, Tgt: -1}
+				if contains(mask, 12) && g.pct(50) {
+					// keep relation 12 and retarget it while removing
+					op.HasRel, op.Rel, op.HasTgt = true, 12, true
+					op.Tgt = g.target(faulty)
+				}
+				return op
+			default:
+				absent := []int{}
+				for _, c := range g.x.compNums {
+					if !contains(mask, c) {
+						absent = append(absent, c)
+					}
+				}
+				rem := g.subset(mask, 2)
+				relLeft := -1
+				for _, c := range mask {
+					if contains(g.rels, c) && !contains(rem, c) {
+						relLeft = c
+					}
+				}
+				add := []int{}
+				for _, c := range g.subset(absent, 2) {
+					if contains(g.rels, c) {
+						if relLeft >= 0 {
+							continue
+						}
+						relLeft = c
+					}
+					add = append(add, c)
+				}
+				if faulty && len(mask) > 0 {
+					add = append(add, g.pick(mask))
+				}
+				api := "generic.Exchange.Exchange"
+				if len(rem) == 0 && g.pct(50) {
+					api = "generic.Exchange.Add"
+				} else if len(add) == 0 && g.pct(50) {
+					api = "generic.Exchange.Remove"
+				}
+				if api == "generic.Exchange.Add" {
+					rem = nil
+				}
+				if api == "generic.Exchange.Remove" {
+					add = nil
+				}
+				op := Op{Op: "Exchange", Api: api, E: ref, Add: add, Rem: rem, Tgt: -1}
+				if relLeft >= 0 && g.pct(50) {
+					op.HasRel, op.Rel, op.HasTgt = true, relLeft, true
+					op.Tgt = g.target(faulty)
+				}
+				return op
+			}
+		case "gset":
+			if len(alive) == 0 {
+				continue
+			}
+			ref := g.pick(alive)
+			mask := g.maskOf(ref)
+			if len(mask) == 0 {
+				continue
+			}
+			c := g.pick(mask)
+			if faulty {
+				c = g.pick(g.x.compNums)
+			}
+			return Op{Op: "Set", Api: "generic.Map1.Set", E: ref, C: c, V: g.vals([]int{c})[0]}
+		case "gsetrel":
+			cands := []int{}
+			for _, ref := range alive {
+				if g.relOf(g.maskOf(ref)) >= 0 {
+					cands = append(cands, ref)
+				}
+			}
+			if len(cands) == 0 {
+				continue
+			}
+			ref := g.pick(cands)
+			rel := g.relOf(g.maskOf(ref))
+			if faulty {
+				rel = g.pick(g.x.compNums)
+			}
+			if g.pct(30) {
+				f := &FSpec{K: "all", Ids: []int{rel}, Tgt: -1}
+				op := Op{Op: "BatchSetRelation", Api: "generic.Map1.SetRelationBatch", F: f, Rel: rel, Tgt: g.target(faulty)}
+				if g.pct(50) {
+					op.Q, op.Api, op.Walk = true, "generic.Map1.SetRelationBatchQ", g.walk()
+				}
+				return op
+			}
+			return Op{Op: "SetRelation", Api: "generic.Map1.SetRelation", E: ref, Rel: rel, Tgt: g.target(faulty)}
+		case "gread":
+			if len(alive) == 0 {
+				continue
+			}
+			ref := g.pick(alive)
+			if len(dead) > 0 && faulty {
+				ref = g.pick(dead)
+			}
+			switch g.rng.Intn(4) {
+			case 0:
+				return Op{Op: "Read", Api: "generic.Map.Get", E: ref, Ar: 1 + g.rng.Intn(12)}
+			case 1:
+				return Op{Op: "Read", Api: "generic.Map1.Has", E: ref, C: g.pick(g.x.compNums)}
+			case 2:
+				return Op{Op: "Read", Api: "generic.Map1.GetRelation", E: ref, C: g.pick(g.x.compNums)}
+			default:
+				return Op{Op: "Read", Api: "generic.Map1.Get", E: ref, C: g.pick(g.x.compNums)}
+			}
+		case "gbatch":
+			f := g.topFilter(true)
+			match := g.matching(f)
+			var common, union []int
+			for i, ref := range match {
+				m := g.maskOf(ref)
+				if i == 0 {
+					common = append([]int{}, m...)
+				} else {
+					nc := []int{}
+					for _, c := range common {
+						if contains(m, c) {
+							nc = append(nc, c)
+						}
+					}
+					common = nc
+				}
+				for _, c := range m {
+					if !contains(union, c) {
+						union = append(union, c)
+					}
+				}
+			}
+			lead := 0
+			for lead < 12 && !contains(union, lead) {
+				lead++
+			}
+			run := 0
+			for run < 12 && contains(common, run) {
+				run++
+			}
+			anyRel := false
+			for _, c := range union {
+				anyRel = anyRel || contains(g.rels, c)
+			}
+			var op Op
+			switch {
+			case lead >= 1 && g.pct(50):
+				ar := 1 + g.rng.Intn(lead)
+				if ar >= 3 && anyRel && !faulty {
+					ar = 2
+				}
+				op = Op{Op: "BatchExchange", Api: "generic.Map.AddBatch", F: f, Ar: ar, Tgt: -1}
+				if ar >= 3 && g.pct(60) {
+					op.HasRel, op.Rel, op.HasTgt = true, 2, true
+					op.Tgt = g.target(faulty)
+				}
+			case run >= 1 && len(match) > 0 && g.pct(60):
+				op = Op{Op: "BatchExchange", Api: "generic.Map.RemoveBatch", F: f, Ar: 1 + g.rng.Intn(run), Tgt: -1}
+			case g.pct(50):
+				ar := 1 + g.rng.Intn(3)
+				return Op{Op: "BatchRemove", Api: "generic.Map.RemoveEntities", Ar: ar, Q: g.pct(50)}
+			default:
+				rem := g.subset(common, 1)
+				absentAll := []int{}
+				for _, c := range g.x.compNums {
+					if !contains(union, c) && !contains(g.rels, c) {
+						absentAll = append(absentAll, c)
+					}
+				}
+				add := g.subset(absentAll, 2)
+				if len(add) == 0 && len(rem) == 0 {
+					continue
+				}
+				return Op{Op: "BatchExchange", Api: "generic.Exchange.ExchangeBatch", F: f, Add: add, Rem: rem, Tgt: -1}
+			}
+			if g.pct(40) {
+				op.Q = true
+				op.Api += "Q"
+				op.Walk = g.walk()
+			}
+			return op
+		case "gfilter":
+			if len(g.x.gfs) == 0 || (len(g.x.gfs) < 4 && g.pct(15)) {
+				ar := g.rng.Intn(13)
+				if g.pct(50) {
+					ar = g.rng.Intn(4)
+				}
+				return Op{Op: "GNewFilter", Api: "generic.NewFilter", Ar: ar}
+			}
+			gi := g.rng.Intn(len(g.x.gfs))
+			ar := g.x.gfs[gi].ar
+			r := g.rng.Intn(100)
+			switch {
+			case r < 45:
+				op := Op{Op: "GQuery", Api: "generic.Filter.Query", Qi: gi, Walk: g.walk(), Tgt: -1}
+				if g.pct(25) && (g.x.gfs[gi].hasRel || faulty) {
+					op.HasTgt = true
+					op.Tgt = g.target(false)
+				}
+				return op
+			case r < 55 && ar > 0:
+				return Op{Op: "GBuild", Api: "generic.Filter.Optional", Qi: gi, Ids: g.subset(seqIDs(ar), 2), Tgt: -1}
+			case r < 65:
+				return Op{Op: "GBuild", Api: "generic.Filter.With", Qi: gi, Ids: g.subset(g.x.compNums, 1), Tgt: -1}
+			case r < 73:
+				return Op{Op: "GBuild", Api: "generic.Filter.Without", Qi: gi, Ids: g.subset(g.x.compNums, 1), Tgt: -1}
+			case r < 80:
+				return Op{Op: "GBuild", Api: "generic.Filter.Exclusive", Qi: gi, Tgt: -1}
+			case r < 88:
+				rel := g.pick(g.rels)
+				op := Op{Op: "GBuild", Api: "generic.Filter.WithRelation", Qi: gi, Ids: []int{rel}, Tgt: -1}
+				if g.pct(50) {
+					op.HasTgt = true
+					op.Tgt = g.target(false)
+				}
+				return op
+			case r < 95:
+				return Op{Op: "GBuild", Api: "generic.Filter.Register", Qi: gi, Tgt: -1}
+			default:
+				return Op{Op: "GBuild", Api: "generic.Filter.Unregister", Qi: gi, Tgt: -1}
+			}
 		case "addlistener":
 			if g.x.disp == nil || len(g.x.subs) >= 6 {
 				continue
